@@ -126,6 +126,9 @@ pub struct Shared {
     pub waiting: Vec<AtomicBool>,
     /// what each peer's on_stop does (asks made from on_stop take part in cycles like any other)
     pub stop_plans: Vec<Vec<Step>>,
+    /// the same for on_start and for the first on_run pass
+    pub start_plans: Vec<Vec<Step>>,
+    pub run_plans: Vec<Vec<Step>>,
 }
 
 impl Shared {
@@ -137,13 +140,31 @@ impl Shared {
 pub struct Peer {
     me: usize,
     sh: Arc<Shared>,
+    ran: bool,
 }
 
 impl Actor for Peer {
     type Args = (usize, Arc<Shared>);
     type Error = String;
     async fn on_start(a: Self::Args, _: &ActorRef<Self>) -> Result<Self, String> {
-        Ok(Peer { me: a.0, sh: a.1 })
+        let plan = a.1.start_plans.get(a.0 - 1).cloned().unwrap_or_default();
+        if !plan.is_empty() {
+            a.1.log(format!("N startBegin {}", a.0));
+            run_plan(&a.1, a.0, plan, 0).await;
+            a.1.log(format!("N startDone {}", a.0));
+        }
+        Ok(Peer { me: a.0, sh: a.1, ran: false })
+    }
+    async fn on_run(&mut self, _: &ActorWeak<Self>) -> Result<bool, String> {
+        // one pass; a pass that loses the select to an arriving message is started again later
+        let plan = self.sh.run_plans.get(self.me - 1).cloned().unwrap_or_default();
+        if !plan.is_empty() && !self.ran {
+            self.sh.log(format!("N runBegin {}", self.me));
+            run_plan(&self.sh, self.me, plan, 0).await;
+            self.ran = true;
+            self.sh.log(format!("N runDone {}", self.me));
+        }
+        Ok(false)
     }
     async fn on_stop(&mut self, _: &ActorWeak<Self>, killed: bool) -> Result<(), String> {
         self.sh.log(format!("N stop {} {killed}", self.me));
@@ -335,12 +356,13 @@ pub fn run_with<F: FnMut(usize, &[bool]) -> Option<String>>(mut next_line: F) ->
                         gates: (0..n).map(|_| Semaphore::new(0)).collect(),
                         waiting: (0..n).map(|_| AtomicBool::new(false)).collect(),
                         stop_plans: (1..=n)
-                            .map(|k| {
-                                ws.iter()
-                                    .find_map(|w| w.strip_prefix(&format!("stop{k}=")))
-                                    .and_then(parse_plan)
-                                    .unwrap_or_default()
-                            })
+                            .map(|k| ws.iter().find_map(|w| w.strip_prefix(&format!("stop{k}="))).and_then(parse_plan).unwrap_or_default())
+                            .collect(),
+                        start_plans: (1..=n)
+                            .map(|k| ws.iter().find_map(|w| w.strip_prefix(&format!("start{k}="))).and_then(parse_plan).unwrap_or_default())
+                            .collect(),
+                        run_plans: (1..=n)
+                            .map(|k| ws.iter().find_map(|w| w.strip_prefix(&format!("run{k}="))).and_then(parse_plan).unwrap_or_default())
                             .collect(),
                     });
                     let cap: Option<usize> = ws.iter().find_map(|w| w.strip_prefix("cap=")).and_then(|x| x.parse().ok()).filter(|c| *c > 0);
@@ -574,6 +596,17 @@ impl NetGen {
                         t = if k == n { 1 } else { k + 1 };
                     }
                     line.push_str(&format!(" stop{k}=a{t}(-)"));
+                }
+                // ... or whose on_start / first on_run pass does
+                if !self.acyclic && self.rng.chance(1, 4) {
+                    let k = 1 + self.rng.below(n);
+                    let mut t = 1 + self.rng.below(n);
+                    if t == k {
+                        t = if k == n { 1 } else { k + 1 };
+                    }
+                    let hook = if self.rng.chance(1, 2) { "start" } else { "run" };
+                    let inner = if self.rng.chance(1, 2) { format!("a{k}(-)") } else { "-".to_string() };
+                    line.push_str(&format!(" {hook}{k}=a{t}({inner})"));
                 }
                 return Some(line);
             }
